@@ -18,7 +18,7 @@ from hypothesis import strategies as st
 from pbt.harness import viol
 
 PROPERTY_ID = "C17"
-RULE = ("case = 1-4 variable signals (arrays of 1..30 entries, python/numpy scalars), scalar or per-variable xmin/xmax, "
+RULE = ("case = 1-4 variable signals (arrays of 1..30 entries, python/numpy scalars), scalar or per-variable xmin/xmax (float, or integer-typed: python ints / integer arrays, for either or both), "
         "move limit, volume target from infeasible-low to infeasible-high (or the default), objective sum c_i/x_i^q "
         "(q=1,2,3) or the compliance of a small FE model, maxit, stopping tolerances, bisection parameters, payload "
         "seed. One case = one minimize_oc run; every design transition is checked. Non-trivial = at least 2 "
@@ -62,6 +62,9 @@ def strategy(tier):
         c.update({
             "xmin_form": draw(st.sampled_from(["scalar", "per_var"])),
             "xmax_form": draw(st.sampled_from(["scalar", "per_var"])),
+            # integer-typed bounds (python ints, integer arrays) are as admissible as floats: xmin=0/xmax=1 is the
+            # usual way of calling it
+            "bound_type": draw(st.sampled_from(["float", "float", "int", "int_lo", "int_hi"])),
             "move": draw(st.sampled_from([0.2, 0.1, 0.3, 0.5])) if conv else
             draw(st.one_of(st.sampled_from([0.2, 0.1, 0.05, 0.5, 0.01]), st.floats(0.01, 0.5))),
             "vol": draw(st.floats(0.02, 0.98)) if conv else
@@ -183,6 +186,24 @@ def build_problem(case):
     else:
         xmax = top + w0 * rng.uniform(0.3, 1.0, n)
         xmax_arg = xmax.copy()
+    bt = case.get("bound_type", "float")
+    if bt in ("int", "int_lo"):
+        if case["xmin_form"] == "scalar":
+            xmin_arg = int(rng.integers(1, 3))
+            xmin = np.full(n, float(xmin_arg))
+        else:
+            xmin_arg = rng.integers(1, 4, n)
+            xmin = xmin_arg.astype(float)
+        shift_up = float(xmin.max()) - top
+        top = float(xmin.max())
+        xmax, xmax_arg = xmax + shift_up, xmax_arg + shift_up
+    if bt in ("int", "int_hi"):
+        if case["xmax_form"] == "scalar":
+            xmax_arg = int(math.ceil(top)) + int(rng.integers(1, 4))
+            xmax = np.full(n, float(xmax_arg))
+        else:
+            xmax_arg = int(math.ceil(top)) + rng.integers(1, 5, n)
+            xmax = xmax_arg.astype(float)
     dx = xmax - xmin
     if case["start"] == "uniform":
         x0 = xmin + rng.uniform(0.1, 0.9) * dx
@@ -329,6 +350,7 @@ def check_case(case, _debug=None):
     labels = [f"obj:{case['obj']}", "nsig>=2" if k >= 2 else "nsig:1", f"xmin:{case['xmin_form']}",
               f"xmax:{case['xmax_form']}", "maxvol:default" if case["vol"] is None else "maxvol:given",
               f"l1l2tol:{case['l1l2tol']}", f"gexp:{case['gexp']}"]
+    labels.append("bounds:" + case.get("bound_type", "float"))
     if "per_var" in (case["xmin_form"], case["xmax_form"]):
         labels.append("per_var_bounds")
     if any(kd != "arr" for kd in prob["kinds"]):
@@ -451,7 +473,11 @@ def check_case(case, _debug=None):
                 _debug["first_conv"] = first
                 _debug["dist_steps"] = math.ceil(float(np.max(np.abs(prob["x0"] - xs))) / move)
                 _debug["ndesigns"] = len(designs)
-            if ls * (1 + 1e-9) + tol < l2init and case["maxit"] >= need:
+            # the multiplier is only found to within the bisection tolerance; when that is not small against the
+            # multiplier itself the move-limited iteration may legitimately cycle between grid values of the bisection
+            # (volume over/under-shoot), so the claim is made only for tol <= 2% of the multiplier
+            if ls * (1 + 1e-9) + tol < l2init and case["maxit"] >= need and tol <= 0.02 * ls \
+                    and np.any((xs > xmin * (1 + 1e-6)) & (xs < xmax * (1 - 1e-6))):   # a free variable: unique multiplier
                 labels.append("convergence_claimed")
                 lo_l, hi_l = max(ls - tol, 0.0), ls + tol
                 cs = prob["c"] * prob["scale"]
